@@ -20,7 +20,17 @@ func corpus() []core.Case {
 		all = append(all, "p32 "+hx([]byte{'1', byte(b)}))
 		all = append(all, "p32 "+hx([]byte{'z', '0', byte(b)}))
 	}
+	// one invalid byte at every position of inputs of every length 1..40
+	everyPos := []string{"@ C20 id"}
+	for n := 1; n <= 40; n++ {
+		for p := 0; p < n; p++ {
+			b := []byte(strings.Repeat("xcnvg4gxgm57t0123456789abcdefghjkmnprstuvwxyz", 1)[:n])
+			b[p] = []byte{0x00, 'i', 0xff}[(n+p)%3]
+			everyPos = append(everyPos, "p32 "+hx(b))
+		}
+	}
 	return []core.Case{
+		{Lines: everyPos, Tag: "magnitude"},
 		// F10 witnesses: '!' (33), "il" are outside the alphabet but at indices the init loop never marks
 		{Lines: []string{"@ C20 id", "p32 21"}, Tag: "corpus"},
 		{Lines: []string{"@ C20 id", "p32 696c"}, Tag: "corpus"},
@@ -55,6 +65,12 @@ func corpus() []core.Case {
 var near = []byte("ilouILOUZ!@`{/:9a _-")
 
 func gen(r *core.Rand, tier string) core.Case {
+	if r.Chance(6) {
+		return genMag(r, tier)
+	}
+	if r.Chance(map[bool]int{false: 1, true: 4}[tier == "thorough"]) && r.Chance(30) {
+		return genStrLarge(r, tier)
+	}
 	switch r.Pick(40, 30, 24, 6) {
 	case 0:
 		return genID(r)
@@ -169,7 +185,11 @@ var palette = []string{"a", "b", "c", "Z", "0", "9", "é", "ß", "你", "好", "
 
 func genStr(r *core.Rand) core.Case {
 	var cs string
-	switch r.Pick(15, 10, 35, 10, 4, 10, 16) {
+	switch r.Pick(15, 10, 35, 10, 4, 10, 16, 8, 6) {
+	case 7: // only runes <= U+00FF, some of them >= U+0080 (two bytes in UTF-8, one "byte" as a rune)
+		cs = latin1Set(r, r.Range(1, 12))
+	case 8: // sizes 2^k and 2^k±1 up to 300 runes
+		cs = sizedSet(r, []int{2, 3, 4, 5, 127, 128, 129, 255, 256, 257, 300}[r.Intn(11)])
 	case 0:
 		cs = randz.CHAR_SET
 	case 1:
@@ -395,4 +415,137 @@ func genCountRaw(r *core.Rand) core.Case {
 		}
 	}
 	return core.Case{Lines: lines, Tag: tag}
+}
+
+// latin1Set: k runes in U+0001..U+00FF, at least one in U+0080..U+00FF.
+func latin1Set(r *core.Rand, k int) string {
+	rs := []rune{rune(0x80 + r.Intn(0x80))}
+	for len(rs) < k {
+		if r.Bool() {
+			rs = append(rs, rune(0x80+r.Intn(0x80)))
+		} else {
+			rs = append(rs, rune(0x21+r.Intn(0x5e)))
+		}
+	}
+	for i := len(rs) - 1; i > 0; i-- {
+		j := r.Intn(i + 1)
+		rs[i], rs[j] = rs[j], rs[i]
+	}
+	return string(rs)
+}
+
+// sizedSet: k distinct runes mixing ASCII, Latin-1, CJK.
+func sizedSet(r *core.Rand, k int) string {
+	base := []rune{0x30, 0xC0, 0x4e00}[r.Intn(3)]
+	rs := make([]rune, k)
+	for i := range rs {
+		rs[i] = base + rune(i)
+	}
+	return string(rs)
+}
+
+// genStrLarge (large stream): n up to 5000 over sets of size 2^k, 2^k±1 up to 300 runes
+// (or Latin-1 sets), with enough random words for the rejection rate of the set.
+func genStrLarge(r *core.Rand, tier string) core.Case {
+	var cs string
+	if r.Chance(30) {
+		cs = latin1Set(r, r.Range(2, 40))
+	} else {
+		cs = sizedSet(r, []int{1, 2, 3, 16, 17, 31, 32, 33, 64, 65, 255, 256, 257, 300}[r.Intn(14)])
+	}
+	set := []rune(cs)
+	bits := 0
+	for l := len(set); l != 0; l >>= 1 {
+		bits++
+	}
+	per := 63 / bits
+	n := []int{255, 256, 257, 1000, 1024, 1025, 4096, 4097, 5000}[r.Intn(9)]
+	if r.Chance(30) {
+		n = r.Range(200, 5000)
+	}
+	need := (n + per - 1) / per
+	k := need*(1<<uint(bits))/len(set)*12/10 + 8
+	ws := make([]string, k)
+	for j := range ws {
+		ws[j] = strconv.FormatUint(r.Uint64()>>1, 10)
+	}
+	return core.Case{Lines: []string{"@ C20 str " + hx([]byte(cs)), fmt.Sprintf("gen %d %s", n, strings.Join(ws, " "))}, Tag: "large"}
+}
+
+var invalidB32 = []byte{0x00, 0xff, 'i', 'l', 'o', 'q', 'I', 'Z', '!', ' ', 0x80, '/', ':', '`', '{'}
+
+func validNumeral(r *core.Rand, n int) []byte {
+	b := make([]byte, n)
+	for j := range b {
+		b[j] = refAlphabet[r.Intn(32)]
+	}
+	return b
+}
+
+// genMag (magnitude stream): ParseBase32 on inputs of length 1..40 (64 in thorough) with
+// one or several bytes outside the alphabet at EVERY position (also far left of the last
+// 13 characters, which alone determine the int64 value), sweeps of all 256 byte values
+// at chosen positions of long inputs, and valid long numerals (value wraps modulo 2^64).
+func genMag(r *core.Rand, tier string) core.Case {
+	maxLen := 40
+	if tier == "thorough" {
+		maxLen = 64
+	}
+	lines := []string{"@ C20 id"}
+	switch r.Pick(55, 15, 30) {
+	case 0:
+		for k := r.Range(8, 30); k > 0; k-- {
+			n := r.Range(1, maxLen)
+			if r.Chance(40) {
+				n = r.Range(13, maxLen)
+			}
+			b := validNumeral(r, n)
+			bad := 1
+			if r.Chance(25) {
+				bad = r.Range(2, 3)
+			}
+			for ; bad > 0; bad-- {
+				p := r.Intn(n)
+				switch r.Intn(4) {
+				case 0:
+					p = 0
+				case 1:
+					if n > 13 {
+						p = r.Intn(n - 13) // cut off by a "last 13 digits" shortcut
+					}
+				}
+				if r.Chance(70) {
+					b[p] = invalidB32[r.Intn(len(invalidB32))]
+				} else {
+					for {
+						b[p] = byte(r.Intn(256))
+						if inAlphabet(b[p]) < 0 {
+							break
+						}
+					}
+				}
+			}
+			lines = append(lines, "p32 "+hx(b))
+		}
+	case 1: // all 256 byte values at one position of a long input
+		n := []int{14, 15, 20, 27, 40}[r.Intn(5)]
+		b := validNumeral(r, n)
+		p := []int{0, 1, n - 14, n - 13, n - 1, n / 2}[r.Intn(6)]
+		for v := 0; v < 256; v++ {
+			c := append([]byte{}, b...)
+			c[p] = byte(v)
+			lines = append(lines, "p32 "+hx(c))
+		}
+	case 2: // valid long numerals
+		for k := r.Range(5, 20); k > 0; k-- {
+			b := validNumeral(r, r.Range(12, maxLen))
+			if r.Chance(30) { // leading zeros: the value may still fit
+				for j := 0; j < len(b)-r.Range(1, 12) && j < len(b); j++ {
+					b[j] = '0'
+				}
+			}
+			lines = append(lines, "p32 "+hx(b))
+		}
+	}
+	return core.Case{Lines: lines, Tag: "magnitude"}
 }
